@@ -1,71 +1,81 @@
-import XPathV.Generated.ExtraFacts
-import XPathV.Model.Api
-import XPathV.Lemmas.Facts
+import XPathV.Lemmas.C07Base
+import XPathV.Lemmas.CmpSem
 /-!
-# C07 — comparison and boolean operators follow XPath 1.0 (existential on node-sets)
+# C07 — comparison and boolean operators follow XPath 1.0 (property-level theorems)
+
+`Lemmas/C07Base.lean` (same namespace) holds the per-cell theorems and the T0 theorems over the
+regenerated dispatch matrix; `Lemmas/CmpSem.lean` the remaining cells, `and`/`or` with their
+short-circuit, `not()`/`boolean()`/`true()`/`false()`, and the induction over expressions.
+
+Fragment `XExp`: number and string literals, predicate-free paths (`PathPF`), comparisons
+`a op b` on the type pairs of `pairOK` (all the pairs the property lists, plus number/string and
+the boolean pairs), `and`, `or`, `not()` of a boolean or node-set, `boolean()`, `true()`,
+`false()`, parentheses — nested to any depth.  Outside (the model — like the Go code — does not
+follow XPath there, and the property does not list them): string-vs-number, relational operators on
+two strings / two node-sets / a boolean with a number or string, `not()` of a number or string.
 -/
 namespace XPathV.Theorems.C07
-open XPathV XPathV.Model XPathV.Facts NumAlg
-
-/-- T0 (F1): the comparison dispatch matrix has no nil cell and holds the expected cells -/
-theorem cmp_table_ok : Generated.cmpTable =
-    [[some "cmpBooleanBoolean", some "cmpBooleanAny", some "cmpBooleanAny", some "cmpBooleanAny"],
-     [some "cmpAnyBoolean", some "cmpNumericNumeric", some "cmpNumericString", some "cmpNumericNodeSet"],
-     [some "cmpAnyBoolean", some "cmpStringNumeric", some "cmpStringString", some "cmpStringNodeSet"],
-     [some "cmpAnyBoolean", some "cmpNodeSetNumeric", some "cmpNodeSetString", some "cmpNodeSetNodeSet"]] := by decide
-
-/-- T0 (F2): the leaf comparators map each XPath operator to the Go operator of the same meaning,
-with the operands in order -/
-theorem leaf_comparators_ok :
-    Generated.cmpNumOps = [("=", "=="), (">", ">"), ("<", "<"), (">=", ">="), ("<=", "<="), ("!=", "!=")] ∧
-    Generated.cmpStrOps = [("=", "=="), (">", ">"), ("<", "<"), (">=", ">="), ("<=", "<="), ("!=", "!=")] ∧
-    Generated.opFuncs = [("eqFunc", "="), ("gtFunc", ">"), ("geFunc", ">="), ("ltFunc", "<"), ("leFunc", "<="), ("neFunc", "!=")] := by decide
-
-/-- T0 (F2): no comparison cell panics (the pinned number/string and number/node-set cells did) -/
-theorem cells_do_not_panic : Generated.cellPanics.all (fun p => !p.2) = true := by decide
+open XPathV XPathV.Model XPathV.Facts XPathV.PathSem XPathV.CmpSem NumAlg
 
 variable {F : Type} [NumAlg F]
 
-/-- number vs number -/
-theorem cell_numNum (d : Doc) (op : Spec.CmpOp) (a b : F) :
-    cmpM d op (.num a) (.num b) = .ok (Spec.compare d op (.num a) (.num b)) := by
-  cases op <;> simp [cmpM, xtypeOf, Spec.compare, Spec.cmpAtom, Spec.CmpOp.isRel, Spec.toNum, Spec.cmpNum, bind, Except.bind, pure, Except.pure]
+/-- **C07, every cell at once**: if the engine's operands are related to the oracle's operands
+(equal atoms; node lists with the same members) and the type pair is one of `pairOK`, the engine's
+comparison is XPath's `compare` -/
+theorem C07_cells (d : Doc) (cop : Spec.CmpOp) (m n : MVal F) (va vb : Spec.Value F)
+    (hm : VRel m va) (hn : VRel n vb) (hk : pairOK cop (vkind va) (vkind vb) = true) :
+    cmpM d cop m n = .ok (Spec.compare d cop va vb) :=
+  cmpM_vrel d cop m n va vb hm hn hk
 
-/-- node-set vs number: true iff some node's number value satisfies the comparison; a
-non-numeric string-value is NaN; the outcome is never a crash, whatever the document holds -/
-theorem cell_setNum (d : Doc) (op : Spec.CmpOp) (l : List Ref) (b : F) :
-    cmpM d op (.nodes l) (.num b) = .ok (Spec.compare d op (.nodes l) (.num b)) := by
-  simp [cmpM, xtypeOf, Spec.compare, goParseFloat, bind, Except.bind, pure, Except.pure]
+/-- **C07 at expression level, through the builder**: for every boolean-valued expression of the
+fragment, every well-formed document and valid context node, the plan the builder makes evaluates
+to the boolean the oracle's top-level evaluation gives.  Hypotheses of C01 for the path operands
+(navigator exposing namespace URIs, NoFnvCollision). -/
+theorem C07_main {d : Doc} (wf : WF d) (cfg : ECfg) (hns : cfg.nsIface = true)
+    (hinj : HashInj d cfg) (c : Ref) (hc : validRef d c = true) (regexOk : RegexOk) (limit : Nat)
+    (sdf : Bool) (e : Ast) (h : XExp .bool e) (st : BState) (o : BOut)
+    (hb : build regexOk limit true sdf e {} st = .ok o) :
+    ∃ t : Bool, evalP (F := F) d cfg o.q c = .ok (.bool t) ∧
+      Spec.evalTop (F := F) d e c = .ok (.bool t) :=
+  build_bool_expr_sem wf cfg hns hinj c hc regexOk limit sdf e h st o hb
 
-theorem cell_numSet (d : Doc) (op : Spec.CmpOp) (a : F) (l : List Ref) :
-    cmpM d op (.num a) (.nodes l) = .ok (Spec.compare d op (.num a) (.nodes l)) := by
-  simp [cmpM, xtypeOf, Spec.compare, goParseFloat, bind, Except.bind, pure, Except.pure]
+/-- the property's own fragment (comparisons over literals and paths on the listed pairs, closed
+under `and`/`or`/`not()`/`boolean()`) -/
+theorem C07_listed_pairs {d : Doc} (wf : WF d) (cfg : ECfg) (hns : cfg.nsIface = true)
+    (hinj : HashInj d cfg) (c : Ref) (hc : validRef d c = true) (regexOk : RegexOk) (limit : Nat)
+    (sdf : Bool) (e : Ast) (h : BExp e) (st : BState) (o : BOut)
+    (hb : build regexOk limit true sdf e {} st = .ok o) :
+    ∃ t : Bool, evalP (F := F) d cfg o.q c = .ok (.bool t) ∧
+      Spec.evalTop (F := F) d e c = .ok (.bool t) :=
+  build_bexp_sem wf cfg hns hinj c hc regexOk limit sdf e h st o hb
 
-/-- string vs string, `=` and `!=` -/
-theorem cell_strStr_eq (d : Doc) (a b : String) :
-    cmpM (F := F) d .eq (.str a) (.str b) = .ok (Spec.compare (F := F) d .eq (.str a) (.str b)) := by
-  simp [cmpM, xtypeOf, Spec.compare, Spec.cmpAtom, Spec.CmpOp.isRel, Spec.toStr, cmpStrF, bind, Except.bind, pure, Except.pure]
+/-- a single comparison with the value spelled out: existential on node-sets is `Spec.compare` -/
+theorem C07_comparison_value {d : Doc} (wf : WF d) (cfg : ECfg) (hns : cfg.nsIface = true)
+    (hinj : HashInj d cfg) (c : Ref) (hc : validRef d c = true) (regexOk : RegexOk) (limit : Nat)
+    (sdf : Bool) (op : String) (cop : Spec.CmpOp) (a b : Ast) (hop : Spec.CmpOp.ofString op = some cop)
+    (ha : Opnd a) (hb : Opnd b) (hk : pairC07 cop (okind a) (okind b) = true)
+    (st : BState) (o : BOut) (hbd : build regexOk limit true sdf (.oper op a b) {} st = .ok o) :
+    ∃ (va vb : Spec.Value F) (ga gb : Option (List (List Ref))),
+      Spec.eval (F := F) d a ⟨c, 1, 1⟩ = .ok (.val va ga) ∧
+      Spec.eval (F := F) d b ⟨c, 1, 1⟩ = .ok (.val vb gb) ∧
+      evalP (F := F) d cfg o.q c = .ok (.bool (Spec.compare d cop va vb)) ∧
+      Spec.eval (F := F) d (.oper op a b) ⟨c, 1, 1⟩ = .ok (.val (.bool (Spec.compare d cop va vb)) none) :=
+  build_cmp_sem wf cfg hns hinj c hc regexOk limit sdf op cop a b hop ha hb hk st o hbd
 
-theorem cell_strStr_ne (d : Doc) (a b : String) :
-    cmpM (F := F) d .ne (.str a) (.str b) = .ok (Spec.compare (F := F) d .ne (.str a) (.str b)) := by
-  simp [cmpM, xtypeOf, Spec.compare, Spec.cmpAtom, Spec.CmpOp.isRel, Spec.toStr, cmpStrF, bind, Except.bind, pure, Except.pure, bne]
+/-- **short-circuit**: `or` with a true left operand is `true`, `and` with a false left operand is
+`false`, and the right operand is not evaluated (it may be any plan, even a failing one) -/
+theorem C07_short_circuit (d : Doc) (cfg : ECfg) (l r : Plan) (c : Ref) (lv : MVal F)
+    (hl : evalP (F := F) d cfg l c = .ok lv) :
+    (asBoolM lv = .ok true → evalP (F := F) d cfg (.boolean true l r) c = .ok (.bool true)) ∧
+    (asBoolM lv = .ok false → evalP (F := F) d cfg (.boolean false l r) c = .ok (.bool false)) :=
+  ⟨fun hb => evalP_or_left d cfg l r c lv hl hb, fun hb => evalP_and_left d cfg l r c lv hl hb⟩
 
-/-- node-set vs node-set, `=` : some pair of nodes has equal string-values -/
-theorem cell_setSet_eq (d : Doc) (la lb : List Ref) :
-    cmpM (F := F) d .eq (.nodes la) (.nodes lb) = .ok (Spec.compare (F := F) d .eq (.nodes la) (.nodes lb)) := by
-  simp [cmpM, xtypeOf, Spec.compare, Spec.CmpOp.isRel, cmpStrF, bind, Except.bind, pure, Except.pure]
-
-theorem cell_setSet_ne (d : Doc) (la lb : List Ref) :
-    cmpM (F := F) d .ne (.nodes la) (.nodes lb) = .ok (Spec.compare (F := F) d .ne (.nodes la) (.nodes lb)) := by
-  simp [cmpM, xtypeOf, Spec.compare, Spec.CmpOp.isRel, cmpStrF, bind, Except.bind, pure, Except.pure]
-
-/-- truth conversion: NaN and zero are false (the pinned `asBool` made NaN true) -/
-theorem asBool_spec (v : Spec.Value F) :
-    asBoolM (F := F) (match v with | .nodes l => .nodes l | .bool b => .bool b | .num x => .num x | .str s => .str s)
-      = .ok (Spec.toBool v) := by
-  cases v <;> simp [asBoolM, Spec.toBool]
-
-/-- T0: the float arm of `asBool` is "non-zero and not NaN" -/
-theorem asBool_float_arm_ok : Generated.asBoolFloatSrc = "returnv!=0&&!math.IsNaN(v)" := rfl
+/-- `and`/`or` over operands of any type: the truth values of the operands, converted with
+`boolean()`, combined with `&&` / `||` -/
+theorem C07_and_or_any_type (d : Doc) (cfg : ECfg) (l r : Plan) (c : Ref) (va vb : Spec.Value F)
+    (hl : evalP (F := F) d cfg l c = .ok (Theorems.C08.emb va)) (hr : evalP (F := F) d cfg r c = .ok (Theorems.C08.emb vb)) :
+    evalP (F := F) d cfg (.boolean true l r) c = .ok (.bool (Spec.toBool va || Spec.toBool vb)) ∧
+    evalP (F := F) d cfg (.boolean false l r) c = .ok (.bool (Spec.toBool va && Spec.toBool vb)) :=
+  ⟨evalP_or_spec d cfg l r c va vb hl hr, evalP_and_spec d cfg l r c va vb hl hr⟩
 
 end XPathV.Theorems.C07
